@@ -187,7 +187,9 @@ func processFile(filePath string, ctxt *processors.Context, checkOnly bool) erro
 		line := scanner.Bytes()
 		line, indent, err = processLine(line, indent)
 		if err != nil {
+			// don't write the file, the line that failed would be lost
 			logger.Error().Err(err).Msgf("failed to format %s", filename)
+			return err
 		}
 		lines = append(lines, string(line))
 	}
